@@ -62,19 +62,21 @@ Section Step.
 
   (* ---- def VAR_<f>(arg_stack, self, arity=-1, ctx=None): `stk s` is arg_stack ---------------------------- *)
   Fixpoint m_params (ps : list param) (acc : list value) (loc : list (str * value)) (s : state)
-    : state * list value * list (str * value) :=
+    : xres (state * list value * list (str * value)) :=
     match ps with
-    | [] => (s, acc, loc)
+    | [] => XOk (s, acc, loc)
     | PNum n :: r =>                                               (* parameters += wrapify(arg_stack, n, ctx) *)
         let (s1, popped) := popn n s in m_params r (acc ++ popped) loc s1
     | PName x :: r =>                                              (* VAR_<x> =pop(arg_stack, 1, ctx=ctx): a local of this def *)
         let (s1, v) := pop1 s in m_params r acc (assign x v loc) s1
+    | PStar :: r =>                                                (* parameters += wrapify(arg_stack, pop(arg_stack, 1, ctx=ctx), ctx=ctx) *)
+        xdo (s1, popped) <- of_opt (pop_star s); m_params r (acc ++ popped) loc s1
     end.
 
   (* result: the function's whole `stack` (top first); the state is back in the caller's
      frame with what is left of arg_stack *)
   Definition m_named_body (c : closure) (s : state) : xres (list value * state) :=
-    let '(s, parameters, loc) := m_params (c_params c) [] [] s in  (* parameters = []; the parameter lines *)
+    xdo (s, parameters, loc) <- m_params (c_params c) [] [] s;     (* parameters = []; the parameter lines *)
     let saved := stk s in
     let saved_locals := locs s in
     let s := set_locs (set_stk s (rev parameters)) loc in          (* stack = parameters[::] *)
